@@ -791,26 +791,29 @@ class F:
                 return self.dict_build(ev, _depth + 1) if not isinstance(ev, ast.Name) else None
             if not merge(self.dict_build(inits[0][1], _depth + 1)):
                 return None
-            handled = set()
+            parts = []  # (node index, part) in program order: a dict remembers the first insertion position of a key
             for i, val, b in self.stores(f"{v.id}[__k]"):
                 st = g.nodes[i].stmt
                 k = b["__k"]
                 loop = next((n for n in g.nodes if n.kind == "for" and any(x is st for b_ in n.stmt.body for x in ast.walk(b_))), None)
                 if loop is None:
-                    if not isinstance(k, ast.Constant) or not self.hit_before(g.exit, nodes=[i]):
+                    if not isinstance(k, ast.Constant) or not self.hit_before(g.exit, nodes=[i], src=inits[0][0]):
                         return None
-                    out["const"][repr(k.value)] = self.xe_at(i, st.value)
+                    parts.append((i, {"const": {repr(k.value): self.xe_at(i, st.value)}, "families": []}))
                 else:
                     kept = self.condition_of((loop.idx, "iter"), [loop.idx], [i])
                     fam = canon_family(loop.stmt.target, k, st.value, kept, self.x(loop.stmt.iter))
                     if fam is None:
                         return None
                     fam["nodes"], fam["loop"] = [i], loop.idx
-                    out["families"].append(fam)
-                handled.add(i)
+                    parts.append((i, {"const": {}, "families": [fam]}))
             for i, c, b in self.call_sites(f"{v.id}.update(__o)"):
-                if not self.hit_before(g.exit, nodes=[i]) or not merge(self.dict_build(b["__o"], _depth + 1)):
+                o = self.dict_build(b["__o"], _depth + 1)
+                if not self.hit_before(g.exit, nodes=[i], src=inits[0][0]) or o is None:
                     return None
+                parts.append((i, o))
+            for i, o in sorted(parts, key=lambda t: t[0]):
+                merge(o)
             others = [i for m_ in ("pop", "popitem", "clear", "setdefault", "__delitem__") for i, c, b in self.call_sites(f"{v.id}.{m_}(___)")] + self.deletes(f"{v.id}[__k]")
             if others:
                 return None
